@@ -773,8 +773,7 @@ fn compare(c: &RunCase, base: &RunOut, other: &RunOut, kind: &str, what: &str, o
     let text_diff = (2..4).find(|i| base.bytes[*i] != other.bytes[*i]);
     if let Some(i) = json_diff {
         // is it exactly the symbol statistics of modules that share a leaf name (F16)?
-        let only_stats = text_diff.is_none()
-            && match (mask_stats(&base.bytes[0], c), mask_stats(&other.bytes[0], c), mask_stats(&base.bytes[1], c), mask_stats(&other.bytes[1], c)) {
+        let only_stats = match (mask_stats(&base.bytes[0], c), mask_stats(&other.bytes[0], c), mask_stats(&base.bytes[1], c), mask_stats(&other.bytes[1], c)) {
                 (Some(a), Some(b), Some(a2), Some(b2)) => a == b && a2 == b2,
                 _ => false,
             };
@@ -1054,11 +1053,10 @@ impl FrameWalker for Twin {
     }
 }
 
-fn exec_cfi(c: &CfiCase) -> ImplResult {
-    let mut res = ImplResult::default();
-    // render the rules into an INIT record and delta records; a shadowed earlier occurrence of a
-    // label must be overridden by the later one
-    let mut rng = Rng::new(c.sh);
+/// one direct call of `walk_with_stack_cfi`; `sh` chooses how the rule map is spread over the INIT
+/// record and delta records (text order, `$` prefixes, shadowed earlier occurrences, expression forms)
+fn cfi_once(c: &CfiCase, sh: u64) -> (Result<Option<String>, String>, String, bool) {
+    let mut rng = Rng::new(sh);
     let mut order: Vec<usize> = (0..c.rules.len()).collect();
     for i in (1..order.len()).rev() {
         order.swap(i, rng.below(i as u64 + 1) as usize);
@@ -1109,16 +1107,11 @@ fn exec_cfi(c: &CfiCase) -> ImplResult {
         }
         tw.touched.insert(*r);
     }
+    let text = format!("INIT `{}` + {:?}", init_rules.rules, additional.iter().map(|a| a.rules.as_str()).collect::<Vec<_>>());
     let r = catch(|| walk_with_stack_cfi(&init_rules, &additional, &mut tw));
-    match r {
-        Err(msg) => {
-            res.out = "PANIC".into();
-            res.oracle.push(("panic".into(), msg));
-        }
-        Ok(None) => {
-            res.out = "none".into();
-            res.oracle.push(("cfi-walk-failed".into(), format!("walk_with_stack_cfi returned None on `{}`", init_rules.rules)));
-        }
+    let out = match r {
+        Err(msg) => Err(msg),
+        Ok(None) => Ok(None),
         Ok(Some(())) => {
             let mut shown = vec![];
             for (i, name) in ARM64_NAMES.iter().enumerate() {
@@ -1127,9 +1120,42 @@ fn exec_cfi(c: &CfiCase) -> ImplResult {
                     shown.push(format!("{i}={}{}", tw.caller_ctx.get_register_always(name), if valid { '+' } else { '-' }));
                 }
             }
-            res.out = format!("regs:{}", shown.join(","));
+            Ok(Some(format!("regs:{}", shown.join(","))))
+        }
+    };
+    (out, text, !additional.is_empty())
+}
+
+fn exec_cfi(c: &CfiCase) -> ImplResult {
+    let mut res = ImplResult::default();
+    let (first, text, has_delta) = cfi_once(c, c.sh);
+    match &first {
+        Err(msg) => {
+            res.out = "PANIC".into();
+            res.oracle.push(("panic".into(), msg.clone()));
+        }
+        Ok(None) => {
+            res.out = "none".into();
+            res.oracle.push(("cfi-walk-failed".into(), format!("walk_with_stack_cfi returned None on {text}")));
+        }
+        Ok(Some(s)) => res.out = s.clone(),
+    }
+    // the property's oracle on the implementation alone: the same rule map gives the same caller
+    // registers on every call (each call builds a fresh HashMap, i.e. a fresh hash seed) and for
+    // every way of writing the same map down
+    for k in 1..8u64 {
+        let sh = if k < 5 { c.sh } else { c.sh.wrapping_mul(31).wrapping_add(k) };
+        let (again, text2, _) = cfi_once(c, sh);
+        if again != first {
+            let class = if k < 5 { "cfi-registers-differ-across-runs" } else { "cfi-registers-differ-across-renderings" };
+            res.oracle.push((
+                class.into(),
+                format!("call #{k}: {:?} but the first call gave {:?}; records: {text2} (first call: {text})", again, first),
+            ));
+            break;
         }
     }
+    let additional_nonempty = has_delta;
     // distribution
     let canon = |l: &str| -> Option<&'static str> { CONTEXT_ARM64::default().memoize_register(l) };
     let mut targets: Vec<&'static str> = c.rules.iter().filter_map(|(l, _)| canon(l)).collect();
@@ -1143,7 +1169,7 @@ fn exec_cfi(c: &CfiCase) -> ImplResult {
     if aliased {
         res.tags.push("cfi-aliased-labels".into());
     }
-    if !additional.is_empty() {
+    if additional_nonempty {
         res.tags.push("cfi-delta-records".into());
     }
     res
@@ -1199,6 +1225,13 @@ fn exec_run(c: &RunCase) -> ImplResult {
             let kind = if si == 0 { "executors" } else if x == 'B' { "schedules" } else { "schedules" };
             let kind = if si != 0 && x != 'B' && c.sched[si] == c.sched[0] { "executors" } else { kind };
             compare(c, &base, &o, kind, &format!("executor {x}, schedule #{si} {:?}", tab), &mut res.oracle);
+        }
+    }
+    // when already two runs of the SAME schedule and executor differ, differences under other
+    // schedules / executors say nothing about schedules / executors
+    for which in ["json", "text"] {
+        if res.oracle.iter().any(|(cl, _)| *cl == format!("{which}-differs-across-runs")) {
+            res.oracle.retain(|(cl, _)| *cl != format!("{which}-differs-across-schedules") && *cl != format!("{which}-differs-across-executors"));
         }
     }
     // one report per class is enough
